@@ -144,7 +144,7 @@ def benign(src):
             print('      ', k, v['first'][:230])
 
 
-def eval_benign():
+def eval_benign(names=None):
     base = os.path.join(SEEDED, 'benign')
     checker_dir()
 
@@ -158,13 +158,13 @@ def eval_benign():
         json.dump(m, open(mp, 'w'), indent=1)
         return n, bad
     with ThreadPoolExecutor(max_workers=int(os.environ.get('SEED_JOBS', '3'))) as ex:
-        for n, bad in ex.map(one, sorted(os.listdir(base))):
+        for n, bad in ex.map(one, [x for x in sorted(os.listdir(base)) if not names or any(x == y or x.startswith(y + '-') for y in names)]):
             print(n, 'SILENT' if not bad else 'ALARM ' + ', '.join('%s(exit %d) %s' % (k, v['exit'], v['first'][:160]) for k, v in bad.items()), flush=True)
 
 
 def main():
     if sys.argv[1] == 'eval-benign':
-        return eval_benign()
+        return eval_benign(sys.argv[2:])
     if sys.argv[1] == 'benign':
         for s in sys.argv[2:]:
             benign(s)
